@@ -450,18 +450,18 @@ struct TierCfg {
 fn tier_cfg(prop: &str, tier: &str) -> TierCfg {
     let quick = tier != "thorough";
     let base: u64 = match prop {
-        "C03" => 400_000,
-        "C02" => 600_000,
-        "C22" | "C23" => 1_200_000,
-        "C15" => 150_000,
-        "C25" => 800,
-        "C20" => 8_000,
-        _ => 1_000_000,
+        "C03" => 800_000,
+        "C02" => 1_000_000,
+        "C22" | "C23" => 2_500_000,
+        "C15" => 300_000,
+        "C25" => 1_200,
+        "C20" => 20_000,
+        _ => 2_000_000,
     };
     if quick {
         TierCfg { runs: base, wall_cap_s: 240.0 }
     } else {
-        TierCfg { runs: base * 20, wall_cap_s: 1500.0 }
+        TierCfg { runs: base * 10, wall_cap_s: 1500.0 }
     }
 }
 
